@@ -237,7 +237,15 @@ def rows_unfold_at(ex, st):
     return out
 
 
-def m_raw_rows(ex, st, fn, args, kw): yield st, st.ghost["raw"]
+def m_raw_rows(ex, st, fn, args, kw):
+    """contract of the four readers (C06 clause `a malformed container stops reading with a data-format error`): a finite sequence of rows,
+    possibly cut short by a DataFormatError raised by the reader instead of delivering row number fail_at + 1"""
+    def raise_fault(ex_, s):
+        m = fresh(STR, "msg")[0]; s.pc.append(z3.Length(m.z) > 0)
+        floc = Ref("Location"); s.heap[floc.oid] = {"file_path": "<io>", "_line": fresh(INT, "fline")[0], "_column": 0, "_cell": 0, "_sheet": 0, "_has_column": False, "_has_cell": False, "_has_sheet": False}
+        for s2, e in raise_new(ex_, s, "DataFormatError", [m, floc]):
+            s2.ghost["fault"] = True; s2.ghost["fault_exc"] = e.exc; yield s2, e
+    yield st, FallibleIter(st.ghost["raw"], st.ghost["fail_at"], raise_fault)
 
 
 def m_validate_row(ex, st, fn, args, kw):
@@ -280,7 +288,7 @@ def setup_rows(ex, st):
                                               "rejected_rows_count": fresh(Opt(INT), "rej0")[0], "_is_closed": False}
     st.frames[-1].env["self"] = self
     st.ghost.update({"raw": raw, "header": header, "until": until, "until_none": until_none, "m": m, "loc": loc, "resets_done": 0, "last_validated": 0,
-                     "out_rows": Sym(SeqRow, z3.Empty(sort_of(SeqRow))), "n_err": 0, "mode": mode, "this": self})
+                     "out_rows": Sym(SeqRow, z3.Empty(sort_of(SeqRow))), "n_err": 0, "mode": mode, "this": self, "fault": False, "fault_exc": None, "fail_at": fresh(INT, "fail_at")[0]})
     def hook(s, v):
         if isinstance(v, Sym): s.ghost["out_rows"] = Sym(SeqRow, z3.Concat(lift(s.ghost["out_rows"]).z, z3.Unit(v.z)))
         else:
@@ -312,10 +320,11 @@ def rows_contract():
             Clause("implies(mode != 'yield', n_err == 0)", "no-error-objects-outside-yield-mode", props=["C06"]),
             Clause("loc._line == %s" % N, "location-advanced-once-per-raw-row", props=["C04"]),
             Clause("resets_done == m", "every-check-reset-exactly-once", props=["C08", "C20"])],
-        raises={"DataError": [Clause("mode == 'raise'", "only-raise-mode-propagates", props=["C06"]),
-                              Clause("0 <= _i1 and _i1 < len(raw) and rejd(_i1 + 1) and norej(_i1)", "raised-at-the-first-rejected-row", props=["C06", "C07"]),
-                              Clause("out_rows == outc(_i1)", "rows-before-the-first-rejection-were-yielded", props=["C06"]),
-                              Clause("exc._location._line == _i1", "error-located-at-the-rejected-row", props=["C04", "C06"])]},
+        raises={"DataError": [Clause("fault or mode == 'raise'", "a-row-rejection-propagates-only-in-raise-mode", props=["C06"]),
+                              Clause("implies(not fault, 0 <= _i1 and _i1 < len(raw) and rejd(_i1 + 1) and norej(_i1))", "raised-at-the-first-rejected-row", props=["C06", "C07"]),
+                              Clause("out_rows == outc(_i1)", "rows-before-the-stop-were-yielded", props=["C06"]),
+                              Clause("implies(not fault, exc._location._line == _i1)", "error-located-at-the-rejected-row", props=["C04", "C06"]),
+                              Clause("implies(fault, exc is fault_exc and _i1 == fail_at)", "a-container-fault-propagates-unchanged-in-every-mode-at-the-row-where-it-happened", props=["C06"])]},
         loops={
             0: LoopSpec(invariants=["resets_done == _i0"], havoc={"check": CHECK}, ghost_havoc={"resets_done": INT}),
             1: LoopSpec(invariants=["loc._line == _i1", "out_rows == outc(_i1)", "this.accepted_rows_count == cnt_acc(_i1)",
